@@ -210,7 +210,7 @@ impl Property for C17 {
         // long vectors: jumps to arbitrary interior positions followed by single steps
         for t in [TID_D, TID_A, 18u8, 10u8] {
             let c = fixed_cap(t).unwrap_or(usize::MAX);
-            for n in [65usize, 127, 129, 1025, 2560, 4097] {
+            for n in [65usize, 127, 129, 1025, 2560, 4097, 4300, 8193] {
                 if !sh.mine() {
                     continue;
                 }
